@@ -40,6 +40,9 @@ class Modes(Stage):
                     c += d.choice([' ünïcödé', ' 日本語', ' €', ' →'])
                 if d.chance(0.15):
                     c = 'progress 10%\rprogress 50%\r' + c      # programs redraw a line with a bare carriage return
+                if d.chance(0.12):
+                    # characters that str.splitlines() treats as line ends but a text stream does not
+                    c = c + d.choice(['\x0c', '\x0b', '\x1c', '\x1d', '\x1e', '\x85', '\u2028', '\u2029']) + 'tail'
                 lines.append(c[:300])
             lines.append(wire.render(m, dialect))
         while d.chance(0.3):
@@ -49,7 +52,7 @@ class Modes(Stage):
         data = text.encode('utf-8')
         return dict(text=text, chunks=[gen_chunks(d, data), gen_chunks(d, data)], exit=d.choice([0, 0, 1, 2, 7, 99, 127, 255, d.int(0, 255)]),
                     argv=[d.choice(ARGS) for _ in range(d.int(0, 5))], marker=d.int(0, 9999), supress=d.chance(0.2), filter=d.choice([None, None, 'wl_display', '* ! .bind']),
-                    nmsg=len(specs), parent_wayland_debug=d.choice([None, None, '1', 'client', 'server', '0', '']))
+                    linger=d.choice([0, 0, 0, 0, 0, 0, 0, 1.3]), nmsg=len(specs), parent_wayland_debug=d.choice([None, None, '1', 'client', 'server', '0', '']))
 
     def execute(self, case):
         res = Result()
@@ -90,12 +93,20 @@ class Modes(Stage):
             outs = []
             for k, chunks in enumerate(case['chunks']):
                 report = sc.path('report%d.json' % k)
-                spec = sc.write('spec%d.json' % k, json.dumps(dict(report=report, chunks=chunks, exit=case['exit'], stdout=marker)))
+                linger = case.get('linger', 0) if k == 0 else 0
+                spec = sc.write('spec%d.json' % k, json.dumps(dict(report=report, chunks=chunks, exit=case['exit'], stdout=marker, linger=linger)))
                 extra = dict(WDV_CHILD_SPEC=spec)
                 if case.get('parent_wayland_debug') is not None:
                     extra['WAYLAND_DEBUG'] = case['parent_wayland_debug']     # wayland-debug itself started from such an environment
                 rc, out, err = cli.run_main(opts + ['-r', cli.PY, child] + case['argv'], stdin=b'q\n', extra_env=extra)
                 res.evals += 1
+                if b'Failed to join subprocess thread' in err and linger:
+                    # the program closed its stderr and exited 1.3 s later: the tool must wait for it and hand on its exit status.
+                    # Confirm once more before calling it a violation (wall-clock effects must not raise an alarm)
+                    rc2, out2, err2 = cli.run_main(opts + ['-r', cli.PY, child] + case['argv'], stdin=b'q\n', extra_env=extra)
+                    if rc2 != case['exit']:
+                        res.bad('exit-status:lingering-program', 'program closed stderr, exited %d after 1.3 s; wayland-debug exited with %r twice (stderr %r)' % (case['exit'], rc2, err2[-200:]))
+                    continue
                 if rc is None or b'Failed to join subprocess thread' in err:
                     # wall-clock effects (timeout here, or the tool's own 1 s join timeout under load) are inconclusive, never a violation
                     res.label('timeout(inconclusive)')
@@ -132,6 +143,7 @@ class Modes(Stage):
         if '\r' in case['text']: res.label('carriage-return-in-chatter')
         if any(a.startswith('-') for a in case['argv']): res.label('option-lookalike-argv')
         if case.get('parent_wayland_debug') not in (None, '1'): res.label('parent-WAYLAND_DEBUG-set-otherwise')
+        if case.get('linger'): res.label('program-lingers-after-closing-stderr')
         res.sample = dict(lines=case['text'].split('\n')[:6], chunks=[len(c) for c in case['chunks']], exit=case['exit'], argv=case['argv'])
         return res
 
